@@ -41,7 +41,7 @@ CATALOGUE = [
     ("g.task.8", "file", False),                  # a plain file with an experiment-like name
     ("archive-tmp/h.task.6", "dir", False),       # leftover of a killed restore
     ("w.task.3\n", "dir", False),                 # name with a trailing newline: not an experiment output
-    ("p/notes", "dir", False),
+    ("e.task.12", "dir", True),                   # recorded AFTER //p/q:f 9: the rows of //:e are not adjacent in the index
 ]
 EXP_RE = re.compile(r"[A-Za-z0-9_-]+\.task\.[1-9][0-9]*\Z")
 TASK_RE = re.compile(r"[A-Za-z0-9_-]+\.task(\.[1-9][0-9]*)?\Z")
@@ -86,7 +86,7 @@ def make(cwds=("", "src")):
             proj.out.mkdir()
             recorded = set()
             # parents first
-            for rel, kind, rec in sorted(present, key=lambda c: c[0].count("/")):
+            for rel, kind, rec in sorted(present, key=lambda c: (c[0] == "e.task.12", c[0].count("/"))):
                 p = proj.out / rel
                 if rec:
                     pkg, base = os.path.split(rel)
